@@ -7,7 +7,7 @@ from typing import Any
 
 from ..ctx import engine
 from ..model import AnalysisError, Program
-from ..paths import SymPath, show
+from ..paths import CannotEval, SymPath, evaluate, show, truth
 from ..report import Report
 from .common import is_attempt_no, is_loop_var, LOGIC, RUNNERS, SELF, STATE, attr, ctor_args, enum_name, runner_paths, owned_by
 
@@ -248,33 +248,57 @@ def run(rep: Report, prog: Program, tier: str) -> None:
         if d is None:
             continue
         n_sched += 1
-        scheduled = any(a == ("cmp", "is", attr(OUT, "decision"), ("enum", "AttemptDecision", "SCHEDULED")) and pol for a, pol, _ in p.conds)
-        for_result = next((pol for a, pol, _ in p.conds if a == ("param", "for_result")), None)
-        rep.instance("R4.3", f"ScheduledAction|scheduled={scheduled}|for_result={for_result}")
+        # decided by value: the fields of the action are evaluated for every combination of the decision, the
+        # for_result flag and the presence of the two stop reasons that is consistent with the path, and compared with
+        # what the exception of call() must carry (whatever conditional expressions / helpers spell it)
+        DEC = attr(OUT, "decision")
+        SCHED = ("enum", "AttemptDecision", "SCHEDULED")
         problems = []
-        if d.get("attempts") != ("param", "attempt"):
-            problems.append(f"attempts={show(d.get('attempts'))}")
-        if d.get("last_class") != attr(ST, "last_class"):
-            problems.append(f"last_class={show(d.get('last_class'))}")
-        sr = d.get("stop_reason")
-        if not (sr is not None and sr[0] == "bool" and sr[1] == "or" and sr[2][0] == attr(OUT, "stop_reason") and sr[2][1] == attr(ST, "last_stop_reason")):
-            problems.append(f"stop_reason={show(sr)}")
-        le, lr, ns = d.get("last_exception"), d.get("last_result"), d.get("next_sleep_s")
-        FR = ("param", "for_result")
-        if scheduled:
-            if le not in (("ite", ("not", FR), attr(ST, "last_exc"), ("const", None)), ("ite", FR, ("const", None), attr(ST, "last_exc"))):
-                problems.append(f"last_exception={show(le)}")
-            if lr not in (("ite", FR, attr(ST, "last_result"), ("const", None)),):
-                problems.append(f"last_result={show(lr)}")
-            if ns != attr(OUT, "sleep_s"):
-                problems.append(f"next_sleep_s={show(ns)}")
-        else:
-            if le != ("const", None) or lr != attr(ST, "last_result"):
-                problems.append(f"last_exception={show(le)} last_result={show(lr)}")
-            if ns not in (("const", None), ("ite", ("cmp", "is", attr(OUT, "decision"), ("enum", "AttemptDecision", "SCHEDULED")), attr(OUT, "sleep_s"), ("const", None))):
-                problems.append(f"next_sleep_s={show(ns)}")
+        combos = 0
+        for dec in ("SCHEDULED", "RAISE"):
+            for fr in (True, False):
+                for osr in (None, "osr"):
+                    for ssr in (None, "ssr"):
+                        def leaf(t, dec=dec, fr=fr, osr=osr, ssr=ssr):
+                            if t == DEC:
+                                return ("enum", "AttemptDecision", dec)
+                            if t == ("param", "for_result"):
+                                return fr
+                            if t == attr(OUT, "stop_reason"):
+                                return osr
+                            if t == attr(ST, "last_stop_reason"):
+                                return ssr
+                            if t[0] in ("param", "attr", "enum"):
+                                return t
+                            raise CannotEval(show(t))
+
+                        try:
+                            if not all(truth(a, leaf) == pol for a, pol, _ in p.conds):
+                                continue  # this combination does not take this path
+                            got = {k: evaluate(v, leaf) for k, v in d.items()}
+                        except CannotEval as exc:
+                            problems.append(f"cannot evaluate {exc}")
+                            break
+                        if dec == "RAISE" and not fr:
+                            continue  # an exception-caused raise re-raises the exception itself: no action is built (R4.1)
+                        combos += 1
+                        want = {
+                            "stop_reason": osr or ssr or ("enum", "StopReason", "SCHEDULED" if dec == "SCHEDULED" else "MAX_ATTEMPTS_GLOBAL"),
+                            "attempts": ("param", "attempt"),
+                            "last_class": attr(ST, "last_class"),
+                            "last_exception": None if fr else attr(ST, "last_exc"),
+                            "last_result": attr(ST, "last_result") if fr else None,
+                            "next_sleep_s": attr(OUT, "sleep_s") if dec == "SCHEDULED" else None,
+                        }
+                        for k, w in want.items():
+                            if got.get(k) != w:
+                                problems.append(f"[decision={dec}, for_result={fr}, outcome.stop_reason={'set' if osr else 'None'}, state.last_stop_reason={'set' if ssr else 'None'}] {k}={show(got.get(k)) if isinstance(got.get(k), tuple) else got.get(k)}; expected {show(w) if isinstance(w, tuple) else w}")
+        scheduled = any(a == ("cmp", "is", DEC, SCHED) and pol for a, pol, _ in p.conds)
+        rep.instance("R4.3", f"ScheduledAction|{'|'.join(p.describe()[-3:])[:120]}")
+        if not problems and combos == 0:
+            problems.append("no combination of decision / for_result reaches this construction")
         if problems:
-            rep.fail("R4.3", f"ScheduledAction|scheduled={scheduled}|{problems[0][:40]}", f"determine_action_from_outcome: ScheduledAction built with {problems}", where=da.where(), function=da.qual, path=p.describe())
+            rep.fail("R4.3", f"ScheduledAction|scheduled={scheduled}|{problems[0][:40]}", f"determine_action_from_outcome: ScheduledAction built with {problems[:3]}", where=da.where(), function=da.qual, path=p.describe())
         else:
             rep.ok("R4.3")
     if n_sched < 2:
